@@ -215,4 +215,17 @@ theorem syncLog_fixed (lg : Logger) (e : Env) (c : Call) :
   · rfl
   · rw [writeAll_fixed]; rfl
 
+/-! ### lists -/
+
+theorem drop_cons_facts {α : Type} (l : List α) (n : Nat) (x : α) (r : List α) (h : l.drop n = x :: r) :
+    l[n]? = some x ∧ l.drop (n + 1) = r ∧ n < l.length := by
+  have h1 : (l.drop n).head? = some x := by rw [h]; rfl
+  rw [List.head?_drop] at h1
+  have h2 : (l.drop n).tail = r := by rw [h]; rfl
+  rw [List.tail_drop] at h2
+  refine ⟨h1, h2, ?_⟩
+  exact Nat.lt_of_not_le (fun hle => by
+    have := List.drop_of_length_le hle
+    rw [this] at h; cases h)
+
 end MgProof.C16
